@@ -127,7 +127,9 @@ func c07Exec(r *vf.Run, cfg c07Cfg) []finding {
 			}
 		}
 		if err != nil {
-			r.HarnessError("C07 listen on port 25 of a loopback address: %v", err)
+			// an environment that does not let this process listen on port 25 of a loopback address cannot host the
+			// fallback cases: they are skipped and the run is reported as not exhaustive (never as a violation)
+			r.Incomplete(fmt.Sprintf("implicit-TLS fallback-port cases skipped: cannot listen on port 25 of a loopback address (%v)", err))
 			return nil
 		}
 		defer bridge.Stop()
